@@ -57,7 +57,7 @@ def get_cosmology(name: str):
         return _CUSTOM["custom"]
     if name == "curved":  # spatially curved FLRW model: D_A != D_C / (1 + z)
         if "curved" not in _CUSTOM:
-            _CUSTOM["curved"] = ac.LambdaCDM(H0=70.0, Om0=0.3, Ode0=0.9, name="curved-test-model")
+            _CUSTOM["curved"] = ac.LambdaCDM(H0=70.0, Om0=0.3, Ode0=0.9)  # unnamed, like the custom one: nothing may be keyed on the name
         return _CUSTOM["curved"]
     return getattr(ac, name)
 
@@ -212,6 +212,25 @@ class Sample:
             self.margin = np.full(self.n, np.inf)
         else:
             self.patch, self.margin = nearest_centre(self.xyz, cxyz)
+
+
+def normalisation_ok(cf):
+    """(per bin, per sample and bin) True where the product of summed weights of every pair-count
+    member of a CorrFunc is non-degenerate.  Where a (leave-one-out) normalisation is zero in exact
+    arithmetic the library's subtract-from-total shortcut leaves a residue of ~1e-15, and the
+    normalised counts there are residue/residue: arbitrary numbers of order one."""
+    ok_d = ok_s = None
+    for kind in ("dd", "dr", "rd", "rr"):
+        member = getattr(cf, kind)
+        if member is None:
+            continue
+        with np.errstate(all="ignore"):
+            w = member.sum_weights.sample_patch_sum()
+        top = max(float(np.nanmax(np.abs(w.data), initial=0.0)), float(np.nanmax(np.abs(w.samples), initial=0.0)), 1e-300)
+        d, smp = np.abs(w.data) > 1e-9 * top, np.abs(w.samples) > 1e-9 * top
+        ok_d = d if ok_d is None else ok_d & d
+        ok_s = smp if ok_s is None else ok_s & smp
+    return ok_d, ok_s
 
 
 class SceneUnusable(Exception):
